@@ -558,7 +558,7 @@ func runScenario(cfg Config, sc Scenario, free int) *Result {
 	h.cancelled = cctx
 	mon := e.SpawnFunc(h.monitor, "verifmon", actor.WithID("m"))
 	e.Subscribe(mon)
-	// the witness lives under an id that has a model actor's id as a proper string prefix (a/A -> a/Aw): ids are
+	// the witness lives under an id that has a model actor's id as a proper string prefix (a/A -> a/Aw/1): ids are
 	// opaque, what happens to one actor must not touch another whose id merely looks similar
 	wroot := ""
 	for n, c := range cfg.Actors {
@@ -570,7 +570,7 @@ func runScenario(cfg Config, sc Scenario, free int) *Result {
 		if _, ok := c.Message().(ping); ok {
 			c.Respond(pong{})
 		}
-	}, "a", actor.WithID(wroot+"w"))
+	}, "a", actor.WithID(wroot+"w/1")) // (an id may contain the separator itself)
 	// make sure the subscription is in place before the scenario starts (same inbox, FIFO)
 	barrier := make(chan struct{}, 1) // (buffered: the event may get there before this goroutine starts waiting)
 	b := e.SpawnFunc(func(c *actor.Context) {
@@ -605,6 +605,7 @@ func runScenario(cfg Config, sc Scenario, free int) *Result {
 		}
 	}
 
+	parents := map[string]context.CancelFunc{} // PoisonCtx callers' own contexts
 	res := &Result{ID: sc.ID, DivergedAt: -1, Done: map[string]DoneRec{}, SentBefore: map[string][]int{}, Sent: map[string][]int{}, Reg: map[string]bool{}}
 	pending := map[string]*arrival{}
 	spret := map[string]bool{}
@@ -766,7 +767,13 @@ func runScenario(cfg Config, sc Scenario, free int) *Result {
 			}
 			res.SentBefore[st.T] = append([]int{}, res.Sent[tc.Target]...)
 			var cx context.Context
-			if tc.Graceful {
+			if tc.Graceful && sc.ID%2 == 1 {
+				// PoisonCtx with a context of the caller's: it is cancelled at the end of the scenario, once the stop
+				// has been signalled (a caller's usual "defer cancel()"), which must change nothing
+				pctx, pcancel := context.WithCancel(context.Background())
+				parents[st.T] = pcancel
+				cx = e.PoisonCtx(pctx, h.pids[tc.Target])
+			} else if tc.Graceful {
 				cx = e.Poison(h.pids[tc.Target])
 			} else {
 				cx = e.Stop(h.pids[tc.Target])
@@ -921,6 +928,10 @@ func runScenario(cfg Config, sc Scenario, free int) *Result {
 	if r, err := e.Request(witness, ping{}, 2*time.Second).Result(); err == nil {
 		_, res.Witness = r.(pong)
 	}
+	// ... and is resolvable under its kind and id like any live actor
+	if p := e.Registry.GetPID("a", wroot+"w/1"); p == nil || p.ID != witness.ID {
+		res.Witness = false
+	}
 	res.Pending = gatesOf(pending)
 	res.Quiet = len(pending) == 0 && settled
 	h.mu.Lock()
@@ -936,6 +947,16 @@ func runScenario(cfg Config, sc Scenario, free int) *Result {
 	}
 	if res.Issued == nil {
 		res.Issued = []string{}
+	}
+	released := false
+	for t, cancel := range parents {
+		if d, ok := res.Done[t]; ok && d.At >= 0 {
+			cancel()
+			released = true
+		}
+	}
+	if released {
+		engineQuiet(50 * time.Millisecond)
 	}
 	for n := range cfg.Actors {
 		res.Reg[n] = h.registered(n)
